@@ -112,7 +112,13 @@ def main(ctx, replay=None):
         nruns = 3 if ctx.tier == "quick" else 40
         recs = []
         for n in range(nruns):
-            ds = system_dataset(rng, exports, str(rng.choice(fillspec.SYSTEMS)), lattice=bool(n % 2)) if n % 3 == 0 else free_dataset(rng, extra_shear=int(rng.integers(0, 6)), lattice=bool(n % 2))
+            ds = system_dataset(rng, exports, str(rng.choice(fillspec.SYSTEMS)), lattice=bool(n % 2)) if n % 3 == 0 else free_dataset(rng, extra_shear=int(rng.integers(1 if n % 3 == 2 else 0, 6)), lattice=bool(n % 2))
+            if n % 3 == 2:
+                # one listed component that is tiny without vanishing (1e-5 GPa: a coupling that a lower symmetry barely allows)
+                zk = [k for k in ds.keys if k[0] != k[1] and (k[0] > 3 or k[1] > 3)]
+                if zk:
+                    k = zk[int(rng.integers(0, len(zk)))]
+                    ds.polys[k] = tuple(x * 5e-7 for x in ds.polys[k])
             ds.settings.update({"NT": int(rng.integers(3, 7)), "NTV": int(rng.integers(8, 16))})
             if n % 3 == 1:
                 ds.settings["NT"] = ds.settings["NTV"] - 4        # QHA's internal temperature grid (NT + 4 rows) as long as the volume grid
